@@ -353,6 +353,7 @@ func init() {
 		Title:       "Context and Canvas apply views, coordinate systems and state as documented",
 		Explanation: "Decides, for every call sequence: view helpers are exactly `view = view.Mul(Identity.<same-named op>(own parameters))` (post-multiplication) and ComposeView post-multiplies its argument; the four draw entry points assemble the same matrix CoordSystemView().Mul(view).Translate(coordView.Dot(x,y)) and compensate text/images exactly in the coordinate systems whose CoordSystemView reflects that axis; every Set*/Reset* method stores only into ContextState; Push saves and Pop restores the whole ContextState (Pop guarded, shrinking by one); Fill/Stroke clear and restore exactly the other paint; drawing does not rewrite the dash array shared with pushed states; RenderViewTo replays in sorted z-index then slice order with no renderer call inside a map range, and recording appends to the current z-index slice. NOT decided: the matrix algebra itself, Fit/Clip/Transform arithmetic, that DrawPath with several paths keeps per-path stroke state.",
 		Run: func(c *core.Ctx, r *core.Report) {
+			E11DashCheckUnits(c, r)
 			E11AccumulatorRestart(c, r)
 			E3BoundingBoxes(c, r) // Rect.Transform and the hull methods: Fit, Clip and the views map boxes with them
 			E8Units(c, r)         // degrees and radians: every property that handles arcs or rotations
@@ -440,6 +441,7 @@ func init() {
 		Title:       "Dashing cuts the path by arc length according to the pattern",
 		Explanation: "Decides two structural clauses: (1) 'independently for every subpath': in Dash the only variable carried across iterations of the sub-path loop is the output accumulator and every iteration restarts from (i0, pos0); (2) pieces cut by SplitAt are made relative to the previous cut in every curve case (E11.cut-carried), read the sub-path's own data (E2 cursor domain) and keep the arc rotation in consistent units (E8). NOT decided: every arithmetic clause (phase, period, offsets, arc-length inversion, piece order, joining of closed sub-paths, degenerate patterns). Argument mutation by Dash is decided under C10/C15. Also runs the structural rules on SplitAt and Length (registered for C09): Dash cuts with SplitAt at positions measured with Length.",
 		Run: func(c *core.Ctx, r *core.Report) {
+			E11DashCheckUnits(c, r)
 			E11SplitPartition(c, r)
 			E11JoinCoincidence(c, r)
 			E11LeadingCutExact(c, r)
